@@ -252,7 +252,7 @@ def case_worker(case):
 
 def gen_cases(ctx):
     rng = ctx.rng
-    n = 48 if ctx.quick else 400
+    n = 48 if ctx.quick else 1000
     cases = []
     for i in range(n):
         k = rng.random()
